@@ -264,6 +264,7 @@ func runC05Hooked(ctx context.Context, w *World, st *C05States, ds []delivery, w
 		go func() {
 			defer wg.Done()
 			nodes := map[string]*Node{}
+			confirmedHangs := 0
 			defer func() {
 				for _, n := range nodes {
 					n.Close()
@@ -308,7 +309,9 @@ func runC05Hooked(ctx context.Context, w *World, st *C05States, ds []delivery, w
 					r := deliverC05(ctx, w, n, d, measure)
 					if isCrash(r.obs) {
 						drop(d.cs.Fl, d.cs.Recv) // connections / state of that node may be lost
-						if r.obs.V == "timeout" || r.obs.H == "timeout" {
+						if (r.obs.V == "timeout" || r.obs.H == "timeout") && confirmedHangs >= 5 {
+							r.detail = "(not confirmed again: 5 hangs were confirmed before) " + r.detail
+						} else if r.obs.V == "timeout" || r.obs.H == "timeout" {
 							// believe a hang only if it shows again on a fresh node
 							n2, err := get(d.cs.Fl, d.cs.Recv)
 							if err != nil {
@@ -322,6 +325,9 @@ func runC05Hooked(ctx context.Context, w *World, st *C05States, ds []delivery, w
 								drop(d.cs.Fl, d.cs.Recv)
 							}
 							r2.detail = "(confirmation run) " + r2.detail
+							if r2.obs.V == "timeout" || r2.obs.H == "timeout" {
+								confirmedHangs++
+							}
 							r = r2
 						}
 					}
